@@ -65,10 +65,19 @@ def smiles_positions(x):
     return pos, atoms
 
 
-def check_decoder(x, res):
+QCACHE = {}
+
+
+def check_decoder(x, res, compat=False):
     """x: SELFIES input; res = [smiles, maps]"""
     smi, maps = res
     toks = [t for t in dec_side.tokens_of(x) if t not in ('.', '[nop]')]
+    seq, frag = [], 0
+    for t in dec_side.tokens_of(x):
+        if t == '.':
+            frag += 1
+        elif t != '[nop]':
+            seq.append((t, frag))
     fails = []
     out_atoms = re.findall(r'\[[^\]]*\]|Br|Cl|[BCNOSPFI]', smi)
     n_atom_maps = 0
@@ -97,6 +106,26 @@ def check_decoder(x, res):
                     fails.append('output atom %r: enclosing symbols %r are not branch symbols in input order before the atom symbol' % (tok, attr[:-1]))
                     break
                 prev = j
+            # "enclosing": a branch symbol [..BranchL] at position j whose L index symbols spell Q fetches the symbols it derives itself at positions
+            # in (j+L, j+L+Q+1] (a nested branch or ring symbol fetched there may run past that span, with its own index symbols and body); so, reading
+            # the listed branch symbols from the outside in, each next one - and finally the atom symbol - lies in that span of the one before it
+            # (Q by the documented index code, not the library's; same fragment)
+            if not compat and i < len(seq):
+                chain = [(j, bt) for (j, bt) in attr[:-1]] + [(i, None)]
+                for (j, bt), (nxt, _) in zip(chain, chain[1:]):
+                    mb = re.match(r'^\[[=#]?Branch([123])\]$', bt)
+                    if not (mb and j < len(seq) and nxt < len(seq) and seq[j][0] == bt):
+                        break
+                    L = int(mb.group(1))
+                    idx = [seq[k][0] if (k < len(seq) and seq[k][1] == seq[j][1]) else None for k in range(j + 1, j + 1 + L)]
+                    key = tuple(idx)
+                    if key not in QCACHE:
+                        QCACHE[key] = drv().one(['spec_idx', [None if t is None else S(t) for t in idx]])
+                    Q = QCACHE[key]
+                    if not (seq[nxt][1] == seq[j][1] and j + L < nxt <= j + L + Q + 1):
+                        fails.append('output atom %r (symbol %d): the branch symbol %r at %d fetches symbols %d..%d only, the next symbol of the attribution (%d) is not among them: not an enclosing branch'
+                                     % (tok, i, bt, j, j + L + 1, j + L + Q + 1, nxt))
+                        break
     if n_atom_maps != len(out_atoms):
         fails.append('%d atoms in the output but %d atom attribution entries' % (len(out_atoms), n_atom_maps))
     return fails
@@ -135,7 +164,7 @@ def work(chunk, extra):
                 r['fail'].append({'clause': 'decoder returns the same string with attribute=True as without', 'input': {'table': t, 'selfies': x, 'compatible': flag},
                                   'impl': [plain, withattr]})
             if 'ok' in withattr and not flag and dec_side.wf_string(x):
-                for f in check_decoder(x, withattr['ok'])[:3]:
+                for f in check_decoder(x, withattr['ok'], compat=bool(flag))[:3]:
                     r['fail'].append({'clause': 'decoder attribution is truthful: ' + f, 'input': {'table': t, 'selfies': x, 'compatible': flag}, 'impl': withattr})
             r['ok'] = 'ok' in withattr
         else:
